@@ -1,12 +1,50 @@
 """C08 — Date-time <-> hour/minute/day-of-year conversions are exact bijections.
 
-Model: lean/Ladybug/Model/Cal.lean; theorems: lean/Ladybug/Props/C08.lean; driver: drv_c08.
+Model: lean/Ladybug/Model/Cal.lean (+ Model/C08Hist.lean: operation histories on one date-time
+variable); theorems: lean/Ladybug/Props/C08.lean (+ Proofs/C08Hist.lean); driver: drv_c08.
 Tie: translator (Gen/DtTables from dt.py) + correspondence on the ops below.
+
+Producers in dt.py and EVERY consumer of each (all of them are exercised by the correspondence
+and/or the oracle, so that a producer changed together with one consumer shows in the others):
+
+  P1 minute-of-year month table + search (DateTime.from_moy)
+       <- from_moy, from_hoy, add_minute, sub_minute, add_hour, sub_hour            [corr + oracle + histories]
+  P2 Time._calculate_hour_and_minute (float hour -> hour, minute, carry)
+       <- DateTime.__new__, Time.__new__, Time.from_mod; through __new__: every constructor path
+          (from_moy, from_dict, from_array, from_date_time_string, from_date_and_time,
+          from_first_hour, from_last_hour, __reduce_ex__/pickle/copy)              [corr: norm_hm/make/time_make; oracle: hoy_float, serial]
+  P3 day-of-year month table + search (Date.from_doy)
+       <- Date.from_doy (both leap flags, both call orders)                          [corr + oracle + histories 'fd' + process order]
+  P4 derived indices: doy -> int_hoy -> moy; doy -> hoy; float_hour
+       <- .doy .int_hoy .moy .hoy .float_hour, add_minute (reads moy), ordering     [every observation of every step]
+  P5 leap flag (year 2016/2017 <-> leap_year)
+       <- to_array, to_dict, __reduce_ex__, add_minute, .date, from_date_and_time   [serial, histories 'sl'/'via']
+  P6 __reduce_ex__ (DateTime, Date, Time)
+       <- pickle protocols 0..5, copy.copy, copy.deepcopy                            [oracle serial, histories via]
+  P7 text forms (__str__/strftime)
+       <- from_date_time_string, Date.from_date_string, Time.from_time_string        [corr str/parse, oracle serial, histories via text]
+
+Round 3 additions: (1) HISTORIES: generated op lists executed on one date-time variable in one
+module instance / one process (constructors of both year kinds in any order, offsets, refused
+calls in between, serial trips, repeated reads), compared step by step with the Lean state machine
+`Cal.Hist.step` (correspondence) and with a stdlib-datetime reference (oracle).  dt.py has no
+per-object state (`__slots__ = ()`) and no module-level state: the model is a pure function of the
+public state, so any memo/slot that survives a refused call, a change of year kind or a different
+call order shows as a difference.  (2) PROCESS ORDER: a slice of the oracle stream is run in fresh
+Python subprocesses, each with another seeded order (failing calls and leap cases first in one
+of them); a failure is reported as op `process_order` with the (shrunk) order as replay.
+(3) float hours at arbitrary resolution (`hoy_float`), zero / boundary / leap-only strata.
 """
+import calendar
 import copy
+import itertools
 import json
+import os
 import pickle
 import struct
+import subprocess
+import sys
+import types
 from datetime import date, datetime, timedelta
 from fractions import Fraction
 
@@ -15,19 +53,27 @@ from harness.core import compare_batch, err_name, run_oracle_cases
 
 PROP = 'C08'
 PROOF_MODULES = ['Ladybug.Props.C08']
-GREP_MODULES = ['Ladybug.Py', 'Ladybug.Model.Cal', 'Ladybug.Gen.DtTables', 'Ladybug.Proofs.CalLemmas',
-                'Ladybug.Drv.C08', 'Ladybug.DrvCore']
+GREP_MODULES = ['Ladybug.Py', 'Ladybug.Model.Cal', 'Ladybug.Model.C08Hist', 'Ladybug.Gen.DtTables',
+                'Ladybug.Proofs.CalLemmas', 'Ladybug.Proofs.C08Hist', 'Ladybug.Drv.C08', 'Ladybug.DrvCore']
 RULE = ('correspondence: month-boundary minutes +-2, random minutes, all day numbers -2..368, all '
-        '(hour, minute) normalisations, offsets, serial forms, for both leap flags (thorough: every '
-        'minute of both years); oracle: inverse laws / ordering / serial round trips on the real classes; '
-        'a case is non-trivial when the implementation returns a value (not a rejection); distinct = '
-        'distinct (op, input)')
+        '(hour, minute) normalisations, offsets, serial forms, float minutes, for both leap flags (thorough: '
+        'every minute of both years); HISTORIES: op lists on one date-time variable (constructors of both '
+        'year kinds, offsets, refused calls, leap-flag switches, serial trips, repeated reads, twin triples) '
+        'run on a new module instance and on the long-lived module, compared step by step with the Lean '
+        'state machine; oracle: inverse laws / ordering / serial round trips / float hours at arbitrary '
+        'resolution / histories against a stdlib reference on the real classes; PROCESS ORDER: a slice of '
+        'the oracle stream in 3-4 fresh interpreters in different seeded orders (failing + leap cases first '
+        'in one); a case is non-trivial when the implementation returns a value (not a rejection); '
+        'distinct = distinct (op, input)')
 TRUSTED_BASE = [
     'translator tools/extract/dt_tables.py: copies the four month tables and MONTHNAMES from dt.py',
     'modelled, not verified: CPython datetime/date/time constructors, strptime/strftime, pickle/copy '
     'calling __reduce_ex__, float hour normalisation (compared exhaustively for hour 0..30 x minute 0..200)',
     'character-level lexing/zero-padding of the text form is tied by correspondence only '
     '(theorem C08_str_roundtrip is at token level)',
+    'absence of hidden state in dt.py (per object / per module) is what the history model states; it is '
+    'tied by the step-by-step history correspondence and the fresh-interpreter order runs of this run only',
+    'constructor calls with fractional hour/minute arguments (DateTime(1, 1, 23, 59.6)) are not modelled',
 ]
 ASSUMPTIONS = ['CPython datetime arithmetic is the reference calendar for the oracle']
 
@@ -86,6 +132,555 @@ def _rand_dt(rng, leap=None):
         return DateTime(m, d, rng.choice([0, 23, 12]), rng.choice([0, 59, 30]), leap)
     r = _ref(leap, rng.randrange(_year_minutes(leap)))      # stdlib calendar, not the code under test
     return DateTime(r.month, r.day, r.hour, r.minute, leap)
+
+
+# ---------------------------------------------------------------------------------------------
+# round 3: module instances, operation histories, process order
+
+
+_WORKER = False            # True inside a process-order subprocess: histories run on the real module
+_DT_CODE = {}
+_FRESH_COUNT = itertools.count()
+
+
+def _real_dt():
+    import ladybug.dt
+    return ladybug.dt
+
+
+class _FreshDt(object):
+    """A new instance of ladybug/dt.py (module-level state as in a new process, at no cost).
+    Registered in sys.modules while in use so that pickle finds the classes."""
+
+    def __enter__(self):
+        path = os.path.join(core.REPO, 'ladybug', 'dt.py')
+        if path not in _DT_CODE:
+            with open(path, encoding='utf-8') as f:
+                _DT_CODE[path] = compile(f.read(), path, 'exec')
+        self.name = 'ladybug_dt_instance_%d' % next(_FRESH_COUNT)
+        mod = types.ModuleType(self.name)
+        mod.__file__ = path
+        sys.modules[self.name] = mod
+        exec(_DT_CODE[path], mod.__dict__)
+        return mod
+
+    def __exit__(self, *a):
+        sys.modules.pop(self.name, None)
+
+
+class _ReadImpure(Exception):
+    pass
+
+
+_READS = ('month', 'day', 'hour', 'minute', 'leap_year', 'doy', 'int_hoy', 'moy', 'hoy', 'float_hour')
+_VIA_MODEL = {'array': 'array', 'dict': 'dict', 'text': 'text', 'date_time': 'date_time', 'copy': 'reduce',
+              'deepcopy': 'reduce', 'pickle0': 'reduce', 'pickle1': 'reduce', 'pickle2': 'reduce',
+              'pickle3': 'reduce', 'pickle4': 'reduce', 'pickle5': 'reduce'}
+_VIAS = sorted(_VIA_MODEL)
+
+
+def _via(mod, cur, form):
+    DT = mod.DateTime
+    if form == 'array':
+        return DT.from_array(cur.to_array())
+    if form == 'dict':
+        return DT.from_dict(json.loads(json.dumps(cur.to_dict())))
+    if form == 'text':
+        return DT.from_date_time_string(str(cur), cur.leap_year)
+    if form == 'date_time':
+        return DT.from_date_and_time(cur.date, cur.time)
+    if form == 'copy':
+        return copy.copy(cur)
+    if form == 'deepcopy':
+        return copy.deepcopy(cur)
+    if form.startswith('pickle'):
+        return pickle.loads(pickle.dumps(cur, int(form[6:])))
+    raise ValueError('unknown form ' + form)
+
+
+def _apply_op(mod, cur, op):
+    """Right-hand side of one history step on the real classes (may raise)."""
+    DT, D, T = mod.DateTime, mod.Date, mod.Time
+    t = op[0]
+    if t == 'fm':
+        return DT.from_moy(op[2], bool(op[1]))
+    if t == 'fh':
+        return DT.from_hoy(op[2], bool(op[1]))
+    if t == 'fd':
+        return DT.from_date_and_time(D.from_doy(op[2], bool(op[1])), cur.time)
+    if t == 'mk':
+        return DT(op[2], op[3], op[4], op[5], bool(op[1]))
+    if t == 'am':
+        return cur.add_minute(op[1])
+    if t == 'sm':
+        return cur.sub_minute(op[1])
+    if t == 'ah':
+        return cur.add_hour(op[1])
+    if t == 'sh':
+        return cur.sub_hour(op[1])
+    if t == 'sl':
+        return DT(cur.month, cur.day, cur.hour, cur.minute, bool(op[1]))
+    if t == 'md':
+        return DT.from_date_and_time(cur.date, T.from_mod(op[1]))
+    if t == 'via':
+        return _via(mod, cur, op[1])
+    if t == 'rd':
+        # the same question asked twice, in two different orders: reads must be pure
+        names = list(_READS)
+        k = op[1] % len(names)
+        order1 = names[k:] + names[:k]
+        first = {n: getattr(cur, n) for n in order1}
+        second = {n: getattr(cur, n) for n in reversed(order1)}
+        if first != second:
+            raise _ReadImpure('%r then %r' % (first, second))
+        return cur
+    raise ValueError('unknown history op %r' % (op,))
+
+
+def _op_token(op):
+    t = op[0]
+    if t in ('fh',):
+        return 'fh:%d:%s' % (op[1], _fbits(float(op[2])))
+    if t in ('ah', 'sh'):
+        return '%s:%s' % (t, _fbits(float(op[1])))
+    if t == 'via':
+        return 'via:' + _VIA_MODEL[op[1]]
+    if t == 'rd':
+        return 'rd'
+    return ':'.join([t] + [str(int(x)) for x in op[1:]])
+
+
+def _obs(d):
+    return (d.month, d.day, d.hour, d.minute, bool(d.leap_year), d.doy, d.int_hoy, d.moy)
+
+
+def _run_history_impl(mod, ops):
+    """Outputs of a history on the real classes, in the driver's format (hoy kept as a float)."""
+    cur = mod.DateTime()
+    out = []
+    for op in ops:
+        try:
+            res = _apply_op(mod, cur, op)
+            o = _obs(res)
+            out.append(('ok',) + o[:4] + (int(o[4]),) + o[5:] + (res.hoy,))
+            cur = res
+        except _ReadImpure as e:
+            out.append(('impure', str(e)))
+        except Exception as e:
+            out.append(('err:' + err_name(e),))
+    return out
+
+
+def _model_step_eq(mtxt, io):
+    """Compare one model output ('ok ..' | 'err:..') with one implementation output tuple."""
+    mt = mtxt.split()
+    if io[0] != 'ok' or not mt or mt[0] != 'ok':
+        return len(io) == 1 and mt == [io[0]]
+    if len(mt) != 10:
+        return False
+    if [int(x) for x in mt[1:9]] != [int(x) for x in io[1:9]]:
+        return False
+    return abs(float(Fraction(mt[9])) - io[9]) <= 1e-9
+
+
+def _month_len(leap, mo):
+    return calendar.monthrange(2016 if leap else 2017, mo)[1]
+
+
+def _moy_of(leap, mo, da, h, mi):
+    year = 2016 if leap else 2017
+    return int((datetime(year, mo, da, h, mi) - datetime(year, 1, 1)).total_seconds() // 60)
+
+
+def _ref_step(ref, op):
+    """Reference semantics of one step on the public state (leap, moy), from the statement and the
+    stdlib calendar only.  Returns ('in', new_ref) when the property determines the result,
+    ('out', ref) when it does not (refused or outside the statement: the result is discarded)."""
+    leap, moy = ref
+    t = op[0]
+    if t == 'fm':
+        l, m = bool(op[1]), op[2]
+        if isinstance(m, int) and 0 <= m < _year_minutes(l):
+            return 'in', (l, m)
+        return 'out', ref
+    if t == 'fh':
+        l = bool(op[1])
+        x = Fraction(op[2]) * 60
+        n = (x + Fraction(1, 2)).__floor__()
+        if abs(x - n) > Fraction(1, 2) - Fraction(1, 10 ** 6):      # too close to a tie
+            return 'out', ref
+        if 0 <= n < _year_minutes(l):
+            return 'in', (l, n)
+        return 'out', ref
+    if t == 'fd':
+        l, k = bool(op[1]), op[2]
+        if 1 <= k <= (366 if l else 365):
+            return 'in', (l, (k - 1) * 1440 + moy % 1440)
+        return 'out', ref
+    if t == 'mk':
+        l, mo, da, h, mi = bool(op[1]), op[2], op[3], op[4], op[5]
+        if 1 <= mo <= 12 and 1 <= da <= _month_len(l, mo) and 0 <= h <= 23 and 0 <= mi <= 59:
+            return 'in', (l, _moy_of(l, mo, da, h, mi))
+        return 'out', ref
+    if t in ('am', 'sm', 'ah', 'sh'):
+        k = Fraction(op[1]) * (60 if t in ('ah', 'sh') else 1)
+        if k.denominator != 1:
+            return 'out', ref
+        k = int(k) if t in ('am', 'ah') else -int(k)
+        if 0 <= moy + k < _year_minutes(leap):
+            return 'in', (leap, moy + k)
+        return 'out', ref
+    if t == 'sl':
+        l = bool(op[1])
+        r = _ref(leap, moy)
+        if r.day <= _month_len(l, r.month):
+            return 'in', (l, _moy_of(l, r.month, r.day, r.hour, r.minute))
+        return 'out', ref
+    if t == 'md':
+        if 0 <= op[1] < 1440:
+            return 'in', (leap, moy // 1440 * 1440 + op[1])
+        return 'out', ref
+    if t in ('via', 'rd'):
+        return 'in', ref
+    raise ValueError('unknown history op %r' % (op,))
+
+
+def _expected_obs(ref):
+    leap, moy = ref
+    r = _ref(leap, moy)
+    return (r.month, r.day, r.hour, r.minute, leap, moy // 1440 + 1, moy // 60, moy)
+
+
+def _check_history(mod, ops):
+    """The statement of C08 along a history: after every step the current date-time reads as the
+    stdlib calendar says for the state the caller has established; refused calls change nothing."""
+    cur = mod.DateTime()
+    ref = (False, 0)
+    refused = 0
+    for i, op in enumerate(ops):
+        dom, new = _ref_step(ref, op)
+        sig = {'kind': 'history', 'step': op[0], 'leap': bool(new[0])}
+        try:
+            res = _apply_op(mod, cur, op)
+        except _ReadImpure as e:
+            return {'required': 'two reads of the same date-time agree', 'observed': str(e),
+                    'sig': dict(sig, what='read'), 'at': i}
+        except Exception as e:
+            if dom == 'out':
+                refused += 1
+                continue
+            return {'required': _expected_obs(new), 'observed': 'raises %s: %s' % (type(e).__name__, str(e)[:80]),
+                    'sig': dict(sig, what='raises'), 'at': i, 'after_refused': refused}
+        if dom == 'out':
+            continue                      # the statement does not determine it: discarded
+        want = _expected_obs(new)
+        got = _obs(res)
+        if got != want or type(res) is not mod.DateTime:
+            return {'required': want, 'observed': got, 'sig': dict(sig, what='value'), 'at': i,
+                    'after_refused': refused}
+        if abs(res.hoy - new[1] / 60.0) > 1e-9:
+            return {'required': new[1] / 60.0, 'observed': res.hoy, 'sig': dict(sig, what='hoy'), 'at': i}
+        if op[0] in ('via', 'rd') and not (res == cur and hash(res) == hash(cur)):
+            return {'required': 'equal to %s' % (cur,), 'observed': str(res), 'sig': dict(sig, what='equal'),
+                    'at': i}
+        cur, ref = res, new
+    return None
+
+
+def _history_result(ops):
+    if _WORKER:
+        return _check_history(_real_dt(), ops)
+    with _FreshDt() as mod:
+        return _check_history(mod, ops)
+
+
+def _shrink_history(ops, fails):
+    """Greedy removal of steps while `fails(ops)` stays true (each trial on a new module instance)."""
+    ops = list(ops)
+    i = len(ops) - 1
+    budget = 200
+    while i >= 0 and budget > 0:
+        trial = ops[:i] + ops[i + 1:]
+        budget -= 1
+        if trial and fails(trial):
+            ops = trial
+        i -= 1
+    return ops
+
+
+_HOURS = (0.0, 0.25, 0.5, 0.75, 1.0, 1.5, 2.0, 6.0, 12.0, 23.75, 24.0, 24.25, 48.0, 100.5, 720.0, 744.0)
+
+
+def _gen_history(rng, length, wild=False, count=None):
+    """A history as a JSON-able op list.  Built from plain numbers and a private reference state
+    (never calls the code under test).  `wild` adds inputs outside the statement (negative band,
+    minute carries, fractional hours, near-ties) that only the model correspondence can judge."""
+    ref = (False, 0)
+    ops = []
+
+    def cnt(k):
+        if count is not None:
+            count('hist:' + k)
+
+    def target(l):
+        n = _year_minutes(l)
+        r = rng.random()
+        if r < 0.35:
+            cnt('target-boundary')
+            return rng.choice([m for m in _boundary_moys(l) if 0 <= m < n])
+        if r < 0.70:
+            cnt('target-near-current')
+            return min(n - 1, max(0, ref[1] + rng.choice([-1, 1]) * rng.choice([0, 1, 59, 60, 1439, 1440, 1441,
+                                                                                 rng.randrange(4320)])))
+        if l and r < 0.78:
+            cnt('target-leap-only-31dec')
+            return rng.randrange(525600, 527040)
+        cnt('target-random')
+        return rng.randrange(n)
+
+    while len(ops) < length:
+        leap = ref[0]
+        if ops and rng.random() < 0.06:
+            # the same question to the two twins of one date (leap / non-leap) and to one date-time twice
+            q = rng.choice([['via', rng.choice(_VIAS)], ['rd', rng.randrange(10)], ['am', 0], ['sh', 0.0],
+                            ['md', ref[1] % 1440], ['fd', int(leap), ref[1] // 1440 + 1]])
+            mid = rng.choice([['sl', int(not leap)], ['sl', int(not leap)], list(q), ['fm', int(not leap), ref[1]]])
+            for op in (q, mid, [q[0], int(bool(mid[1])), q[2]] if q[0] == 'fd' and mid[0] != q[0] else list(q)):
+                ops.append(op)
+                cnt('op-' + op[0])
+                dom, ref = _ref_step(ref, op)
+            cnt('twin-triple')
+            continue
+        l = (not leap) if rng.random() < 0.35 else leap
+        n = _year_minutes(l)
+        r = rng.random()
+        if r < 0.16:                                   # refused calls (the code raises)
+            kind = rng.randrange(7)
+            cnt('refused')
+            if kind == 0:
+                op = ['fm', int(l), rng.choice([n, n + 1, n + 1439, n + 1440, 2 * n, 10 ** 7, -1440, -1441, -n])]
+            elif kind == 1:
+                op = ['fd', int(l), rng.choice([0, -1, (366 if l else 365) + 1, 367, 400, 1000])]
+            elif kind == 2:
+                op = ['mk', int(l)] + list(rng.choice([(2, 30, 0, 0), (2, 29 if not l else 30, 12, 0), (4, 31, 0, 0),
+                                                       (13, 1, 0, 0), (0, 1, 0, 0), (1, 0, 0, 0), (1, 32, 0, 0),
+                                                       (6, 15, 24, 0), (6, 15, 23, 60), (12, 31, 25, 0)]))
+            elif kind == 3:
+                nn = _year_minutes(leap)
+                op = ['am', rng.choice([nn - ref[1], nn - ref[1] + 1, nn, 2 * nn, -ref[1] - 1440, -ref[1] - 1441, -2 * nn])]
+            elif kind == 4:
+                nn = _year_minutes(leap)
+                op = ['sm', rng.choice([ref[1] + 1440, ref[1] + 1441, nn, -(nn - ref[1]), -(nn - ref[1]) - 1])]
+            elif kind == 5:
+                nn = _year_minutes(leap)
+                op = [rng.choice(['ah', 'sh']), float(rng.choice([8784, 9000, 20000]))]
+                if op[0] == 'sh' and ref[1] // 60 + 24 > op[1]:
+                    op[1] = float(ref[1] // 60 + 25)
+            else:
+                op = ['md', rng.choice([1440, 1441, 1500, 2000])]
+        elif r < 0.34:
+            m = target(l)
+            if rng.random() < 0.08:
+                m = rng.choice([0, n - 1])
+                cnt('year-edge')
+            op = ['fm', int(l), m]
+        elif r < 0.46:
+            m = target(l)
+            rr = rng.random()
+            if rr < 0.4:
+                h = m / 60.0
+            elif rr < 0.75:                            # arbitrary resolution, clear of the .5 tie
+                h = (m + rng.choice([0.4999, -0.4999, 0.499, -0.499, 0.25, -0.25, 0.01, rng.uniform(-0.49, 0.49)])) / 60.0
+                cnt('hoy-fraction')
+            else:                                      # last half minute before a full hour / midnight
+                base = m - m % 60 + 60 if rng.random() < 0.5 else m - m % 1440 + 1440
+                h = (base - rng.choice([0.4999, 0.49, 0.3, 0.01, 1e-7])) / 60.0
+                cnt('hoy-last-half-minute')
+            if wild and rng.random() < 0.15:
+                h = (m + rng.choice([0.5, -0.5, 0.5000001, 0.4999999])) / 60.0
+            if rng.random() < 0.05:
+                h = rng.choice([0.0, -0.0, 0, 1e-12])
+            op = ['fh', int(l), h]
+        elif r < 0.54:
+            days = 366 if l else 365
+            k = rng.choice([1, 31, 32, 59, 60, 61, 90, 91, 92, 365, days, days - 1, rng.randrange(1, days + 1),
+                            min(days, max(1, ref[1] // 1440 + 1 + rng.choice([-1, 0, 1])))])
+            op = ['fd', int(l), k]
+        elif r < 0.60:
+            mo = rng.randrange(1, 13)
+            da = rng.choice([1, 28, _month_len(l, mo), rng.randrange(1, _month_len(l, mo) + 1)])
+            if l and rng.random() < 0.2:
+                mo, da = 2, 29
+            h, mi = rng.choice([(0, 0), (23, 59), (12, 30), (rng.randrange(24), rng.randrange(60))])
+            if wild and rng.random() < 0.3:
+                h, mi = rng.choice([(23, 60), (5, 61), (22, 120), (0, 199), (24, 0)])
+            op = ['mk', int(l), mo, da, h, mi]
+        elif r < 0.74:
+            nn = _year_minutes(leap)
+            t = target(leap)
+            k = t - ref[1]
+            rr = rng.random()
+            if rr < 0.1:
+                k = 0
+                cnt('offset-zero')
+            elif rr < 0.2:
+                k = rng.choice([-ref[1], nn - 1 - ref[1]])          # exactly onto the first / last minute
+                cnt('offset-to-year-edge')
+            if wild and rng.random() < 0.1:
+                k = -ref[1] - rng.randrange(1, 1440)                 # negative band (outside the statement)
+            op = ['am', k] if rng.random() < 0.5 else ['sm', -k]
+        elif r < 0.82:
+            nn = _year_minutes(leap)
+            h = rng.choice(_HOURS) * rng.choice([1, -1])
+            if wild and rng.random() < 0.3:
+                h = rng.choice([0.1, 2.05, -2.05, 1 / 3.0, 0.004, rng.uniform(-30, 30)])
+            if not 0 <= ref[1] + h * 60 < nn:
+                h = -h
+            op = [rng.choice(['ah', 'sh']), float(h)]
+        elif r < 0.87:
+            op = ['sl', int(not leap) if rng.random() < 0.7 else int(leap)]
+            cnt('switch-leap-flag')
+        elif r < 0.90:
+            op = ['md', rng.choice([0, 1, 59, 60, 61, 719, 720, 1380, 1439, rng.randrange(1440)])]
+        elif r < 0.96:
+            op = ['via', rng.choice(_VIAS)]
+        else:
+            op = ['rd', rng.randrange(10)]
+        ops.append(op)
+        cnt('op-' + op[0])
+        dom, ref = _ref_step(ref, op)
+        if dom == 'in' and ref[0]:
+            r0 = _ref(*ref)
+            if (r0.month, r0.day) == (2, 29):
+                cnt('on-29-feb')
+    return ops
+
+
+# -- process order: the same oracle cases in fresh interpreters, in different orders
+
+
+def _worker_main():
+    """Entry of a process-order subprocess: reads {"order": [[op, inp], ...]} on stdin, evaluates the
+    cases in that order on the real module of this (new) process, prints the failures as JSON."""
+    global _WORKER
+    _WORKER = True
+    sys.path.insert(0, core.REPO)
+    order = json.load(sys.stdin)['order']
+    fails = []
+    for i, (op, inp) in enumerate(order):
+        try:
+            res = check_case(op, inp)
+        except Exception as e:
+            res = {'required': 'oracle evaluates', 'observed': 'exception %s: %s' % (type(e).__name__, e),
+                   'sig': {'exception': type(e).__name__}}
+        if res:
+            fails.append({'index': i, 'op': op, 'input': inp, 'required': res.get('required'),
+                          'observed': res.get('observed'), 'sig': res.get('sig')})
+            if len(fails) >= 5:
+                break
+    json.dump({'fails': fails, 'n': len(order)}, sys.stdout, default=str)
+
+
+def _spawn_order(order):
+    code = ('import sys; sys.path.insert(0, %r); from harness.props import c08; c08._worker_main()' % core.ROOT)
+    env = dict(os.environ, LADYBUG_REPO=core.REPO, PYTHONDONTWRITEBYTECODE='1')
+    return subprocess.Popen([sys.executable, '-c', code], stdin=subprocess.PIPE, stdout=subprocess.PIPE,
+                            stderr=subprocess.PIPE, env=env)
+
+
+def _finish_order(p, order):
+    out, err = p.communicate(json.dumps({'order': order}).encode('utf-8'), timeout=900)
+    if p.returncode != 0:
+        # a changed implementation may break the interpreter start-up itself: a result, not a crash
+        return [{'index': 0, 'op': 'import', 'input': {}, 'required': 'process runs',
+                 'observed': err.decode('utf-8', 'replace')[-300:], 'sig': {'exception': 'worker'}}]
+    return json.loads(out.decode('utf-8'))['fails']
+
+
+def _run_order(order):
+    return _finish_order(_spawn_order(order), order)
+
+
+def _shrink_order(order, first_fail, budget=14):
+    """Cut the order down to a short list that still fails in a fresh process."""
+    idx = first_fail['index']
+    failing = order[idx]
+    prefix = order[:idx]
+
+    def still(pre):
+        fs = _run_order(pre + [failing])
+        return bool(fs) and fs[0]['index'] == len(pre)
+
+    if budget > 0 and still([]):
+        return [failing]                     # not a matter of order at all
+    budget -= 1
+    chunk = max(1, len(prefix) // 2)
+    while budget > 0 and prefix:
+        removed = False
+        i = 0
+        while i < len(prefix) and budget > 0:
+            trial = prefix[:i] + prefix[i + chunk:]
+            budget -= 1
+            if still(trial):
+                prefix = trial
+                removed = True
+            else:
+                i += chunk
+        if chunk == 1 and not removed:
+            break
+        chunk = max(1, chunk // 2)
+    return prefix + [failing]
+
+
+def _is_rare_first(case):
+    op, inp = case
+    refusing = op == 'reject' or (op == 'history' and any(_ref_step((False, 0), o)[0] == 'out'
+                                                          for o in inp['ops'][:1]))
+    leap = bool(inp.get('leap')) or (op == 'history' and bool(inp['ops']) and inp['ops'][0][0] in
+                                     ('fm', 'fh', 'fd', 'mk') and bool(inp['ops'][0][1]))
+    return (0 if refusing else 1, 0 if leap else 1)
+
+
+def _process_orders(ctx, pool):
+    """2-4 fresh interpreters, each evaluating `pool` in another seeded order."""
+    rng = ctx.rng
+    nproc = 4 if (ctx.searching or not ctx.quick) else 3
+    orders = []
+    for w in range(nproc):
+        o = list(pool)
+        rng.shuffle(o)
+        if w == 0:          # failing calls first, leap before non-leap
+            o.sort(key=_is_rare_first)
+            ctx.count('order:rare-first')
+        elif w == 1:        # non-leap first, then a block of failing calls, then the leap cases
+            o.sort(key=lambda c: (1 - _is_rare_first(c)[1], _is_rare_first(c)[0]))
+            ctx.count('order:plain-first')
+        else:
+            ctx.count('order:shuffled')
+        orders.append(o)
+    procs = [(_spawn_order(o), o) for o in orders]
+    for p, o in procs:
+        fs = _finish_order(p, o)
+        ctx.count('process-order-runs')
+        ctx.count('process-order-cases', len(o))
+        ctx.case(('process_order', len(ctx.distinct)))
+        if fs and len(ctx.failures) < 200:
+            f = fs[0]
+            small = _shrink_order(o, f) if f['op'] != 'import' else []
+            if len(small) == 1 and small[0][0] == 'history':
+                # not a matter of order: report the (shrunk) history itself
+                ops = small[0][1]['ops']
+                res = _history_result(ops)
+                if res:
+                    ops = _shrink_history(ops[:res['at'] + 1], lambda t, sg=res['sig']: (
+                        lambda r: r is not None and r['sig'] == sg)(_history_result(t)))
+                    res = _history_result(ops) or res
+                    ctx.fail('history', {'ops': ops}, res['required'], res['observed'], res['sig'])
+                    continue
+            sig = dict(f.get('sig') or {})
+            sig.update({'kind': 'process_order', 'at': f['op'], 'order_dependent': len(small) > 1})
+            ctx.fail('process_order', {'order': small, 'failing_case': [f['op'], f['input']]},
+                     f['required'], f['observed'], sig)
 
 
 def correspondence(ctx):
@@ -231,6 +826,49 @@ def correspondence(ctx):
     compare_batch(ctx, 'date_reduce', dcs, lambda c: 'date_reduce %s %d %d' % (_b(c[0]), c[1], c[2]),
                   lambda c: _show_d(copy.deepcopy(Date(c[1], c[2], c[0]))))
 
+    # --- from_moy on float arguments (`int(moy)` truncates; from_hoy and add_hour rely on it)
+    cases = []
+    for leap in (False, True):
+        ms = [m for m in _boundary_moys(leap) if -1 <= m <= _year_minutes(leap)]
+        ms += [rng.randrange(_year_minutes(leap)) for _ in range(ctx.n(300, 5000))]
+        for m in ms:
+            for f in (0.0, 0.25, 0.5, 0.75, 0.9999, -0.25):
+                cases.append((leap, float(m) + f))
+    compare_batch(ctx, 'from_moy_f', cases, lambda c: 'from_moy_f %s %s' % (_b(c[0]), _fbits(c[1])),
+                  lambda c: _show_dt(DateTime.from_moy(c[1], c[0])), key=lambda c: (c[0], repr(c[1])))
+
+    # --- histories: one date-time variable, one module instance / one process, step by step
+    hs = [_gen_history(rng, rng.randrange(6, 40), wild=True, count=ctx.count)
+          for _ in range(ctx.n(500, 8000))]
+    lines = ['hist ' + ' '.join(_op_token(o) for o in ops) for ops in hs]
+    outs = ctx.driver().run(lines)
+    real = _real_dt()
+    for ops, mo in zip(hs, outs):
+        msteps = mo.split(' | ')
+        for where in ('instance', 'process'):
+            if where == 'instance':
+                with _FreshDt() as mod:
+                    io = _run_history_impl(mod, ops)
+            else:
+                io = _run_history_impl(real, ops)       # state of the whole run so far behind it
+            ctx.compared += len(ops)
+            ctx.count('op:history-steps', len(ops))
+            ctx.case(('history', where, lines[0] if False else json.dumps(ops)),
+                     nontrivial=any(x[0] == 'ok' for x in io))
+            bad = None
+            if len(msteps) != len(io):
+                bad = 0
+            else:
+                for i, (m1, i1) in enumerate(zip(msteps, io)):
+                    if not _model_step_eq(m1, i1):
+                        bad = i
+                        break
+            if bad is not None:
+                ctx.disagree('history', {'ops': ops[:bad + 1], 'where': where, 'step': bad},
+                             msteps[bad] if bad < len(msteps) else mo, repr(io[bad]))
+    if hs:
+        ctx.sample({'op': 'history', 'request': lines[0][:300], 'model': outs[0][:300]})
+
     # --- Py.lean helpers vs CPython (rationals are exact on both sides)
     rc = []
     for _ in range(ctx.n(3000, 100000)):
@@ -314,6 +952,10 @@ def check_case(op, inp):
         try:
             if what == 'moy':
                 r = DateTime.from_moy(v, leap)
+            elif what == 'make':           # a date that does not exist cannot come back as that date
+                r = DateTime(v[0], v[1], v[2], v[3], leap)
+            elif what == 'date':
+                r = Date(v[0], v[1], leap)
             else:
                 r = Date.from_doy(v, leap)
         except ValueError:
@@ -325,14 +967,19 @@ def check_case(op, inp):
     if op == 'order':
         a, b = inp['a'], inp['b']
         da, db = DateTime.from_moy(a, leap), DateTime.from_moy(b, leap)
-        if (a < b) != (da < db) or (a == b) != (da == db):
+        if (a < b) != (da < db) or (a == b) != (da == db) or (a <= b) != (da <= db) or \
+                (a > b) != (da > db) or (a != b) != (da != db) or (a == b) != (hash(da) == hash(db)):
             return {'required': 'order of %d,%d' % (a, b), 'observed': '%s vs %s' % (da, db), 'sig': sig}
         return None
     if op == 'add_sub':
         d0 = DateTime.from_moy(inp['moy'], leap)
         k = inp['k']
         if inp.get('unit') == 'hour':
-            back = d0.add_hour(k).sub_hour(k)
+            fwd = d0.add_hour(k)
+            k60 = Fraction(k) * 60
+            if k60.denominator == 1 and fwd.moy != inp['moy'] + int(k60):
+                return {'required': inp['moy'] + int(k60), 'observed': fwd.moy, 'sig': dict(sig, unit='hour')}
+            back = fwd.sub_hour(k)
         else:
             fwd = d0.add_minute(k)
             if fwd.moy != inp['moy'] + k:
@@ -347,6 +994,10 @@ def check_case(op, inp):
             'array': lambda x: type(x).from_array(x.to_array()),
             'dict': lambda x: type(x).from_dict(json.loads(json.dumps(x.to_dict()))),
             'pickle': lambda x: pickle.loads(pickle.dumps(x)),
+            'pickle0': lambda x: pickle.loads(pickle.dumps(x, 0)),
+            'pickle1': lambda x: pickle.loads(pickle.dumps(x, 1)),
+            'pickle2': lambda x: pickle.loads(pickle.dumps(x, 2)),
+            'pickle5': lambda x: pickle.loads(pickle.dumps(x, 5)),
             'copy': lambda x: copy.copy(x),
             'deepcopy': lambda x: copy.deepcopy(x),
         }
@@ -363,6 +1014,13 @@ def check_case(op, inp):
                 if not ok:
                     return {'required': str(obj), 'observed': obs,
                             'sig': dict(sig, form=fname, cls=cname)}
+        try:
+            back = DateTime.from_date_and_time(d.date, d.time)
+            ok, obs = back == d and back.leap_year == leap, str(back)
+        except Exception as e:
+            ok, obs = False, 'raises %s' % type(e).__name__
+        if not ok:
+            return {'required': str(d), 'observed': obs, 'sig': dict(sig, form='date_and_time', cls='DateTime')}
         text = {
             'DateTime': lambda x: DateTime.from_date_time_string(str(x), leap),
             'Date': lambda x: Date.from_date_string(str(x), leap),
@@ -378,10 +1036,81 @@ def check_case(op, inp):
             if not ok:
                 return {'required': str(obj), 'observed': obs, 'sig': dict(sig, form='text', cls=cname)}
         return None
+    if op == 'hoy_float':
+        h = inp['hoy']
+        x = Fraction(h) * 60
+        n = (x + Fraction(1, 2)).__floor__()
+        cands = {n}
+        if abs(x - n) > Fraction(1, 2) - Fraction(1, 10 ** 6):      # within 1e-6 of a tie: either neighbour
+            cands = {x.__floor__(), x.__floor__() + 1}
+        if not all(0 <= c < _year_minutes(leap) for c in cands):
+            return None                                             # nearest minute outside the year: not judged
+        sig = dict(sig, frac='grid' if x == n else ('down' if x > n else 'up'),
+                   midnight=bool(n % 1440 == 0 and x < n))
+        try:
+            d = DateTime.from_hoy(h, leap)
+        except Exception as e:
+            return {'required': 'the date-time of minute %d' % n, 'observed': 'raises %s: %s' % (
+                type(e).__name__, str(e)[:60]), 'sig': dict(sig, what='raises')}
+        if d.moy not in cands:
+            return {'required': sorted(cands), 'observed': d.moy, 'sig': dict(sig, what='minute')}
+        r = _ref(leap, d.moy)
+        got = (d.month, d.day, d.hour, d.minute, d.leap_year, d.doy, d.int_hoy)
+        want = (r.month, r.day, r.hour, r.minute, leap, d.moy // 1440 + 1, d.moy // 60)
+        if got != want:
+            return {'required': want, 'observed': got, 'sig': dict(sig, what='fields')}
+        return None
+    if op == 'history':
+        return _history_result(inp['ops'])
+    if op == 'process_order':
+        fs = _run_order([tuple(c) for c in inp['order']])
+        if not fs:
+            return None
+        f = fs[0]
+        sig = dict(f.get('sig') or {})
+        sig.update({'kind': 'process_order', 'at': f['op']})
+        return {'required': f['required'], 'observed': 'case %d of the order (%s %s): %s' % (
+            f['index'], f['op'], json.dumps(f['input'])[:200], f['observed']), 'sig': sig}
     raise ValueError('unknown op ' + op)
 
 
 replay = check_case
+
+
+def _hoy_float_cases(ctx, leap, count):
+    """Float hours at arbitrary resolution, by stratum (built from plain numbers)."""
+    rng = ctx.rng
+    n = _year_minutes(leap)
+    bm = [m for m in _boundary_moys(leap) if 0 <= m < n]
+    for _ in range(count):
+        r = rng.random()
+        m = rng.choice(bm) if rng.random() < 0.4 else rng.randrange(n)
+        if r < 0.25:        # last half minute before midnight / before a full hour (carry into hour, day, month)
+            base = (m // 1440 + 1) * 1440 if rng.random() < 0.6 else (m // 60 + 1) * 60
+            h = (base - rng.choice([0.4999, 0.499, 0.45, 0.3, 0.1, 0.01, 1e-6])) / 60.0
+            ctx.count('hoy:last-half-minute')
+        elif r < 0.45:      # just below / above the half-minute tie
+            h = (m + 0.5 + rng.choice([-1, 1]) * rng.choice([1e-4, 1e-3, 0.01])) / 60.0
+            ctx.count('hoy:near-tie')
+        elif r < 0.65:      # sub-minute resolution
+            h = (m + rng.uniform(-0.499, 0.499)) / 60.0
+            ctx.count('hoy:sub-minute')
+        elif r < 0.75:      # minute grid written with few decimals (as people type it)
+            h = float('%.4f' % (m / 60.0))
+            ctx.count('hoy:4-decimals')
+        elif r < 0.80:
+            h = rng.choice([0.0, -0.0, 0, 1e-12, 1e-9, 0.008, 1 / 120.0 - 1e-9])
+            ctx.count('hoy:zero')
+        elif r < 0.85:
+            h = m // 60                     # an int, not a float
+            ctx.count('hoy:int')
+        else:
+            h = rng.random() * (n / 60.0)
+            ctx.count('hoy:uniform')
+        yield 'hoy_float', {'leap': leap, 'hoy': h}
+
+
+_BAD_DATES = [(2, 30), (2, 31), (4, 31), (6, 31), (9, 31), (11, 31), (13, 1), (0, 1), (1, 0), (1, 32)]
 
 
 def _oracle_cases(ctx):
@@ -399,22 +1128,48 @@ def _oracle_cases(ctx):
         hm = moys if not isinstance(moys, range) else range(0, n, 1 if not ctx.quick else 7)
         for m in hm:
             yield 'hoy_roundtrip', {'leap': leap, 'moy': m}
+        for c in _hoy_float_cases(ctx, leap, 4000 if not big else 60000):
+            yield c
         for k in range(1, (366 if leap else 365) + 1):
             yield 'doy_roundtrip', {'leap': leap, 'doy': k}
         for v in (n, n + 1, n + 1440, 2 * n, 10 ** 8):
             yield 'reject', {'leap': leap, 'what': 'moy', 'value': v}
         for v in (0, -1, (366 if leap else 365) + 1, 400, 1000):
             yield 'reject', {'leap': leap, 'what': 'doy', 'value': v}
+        for mo, da in _BAD_DATES + ([] if leap else [(2, 29)]):
+            yield 'reject', {'leap': leap, 'what': 'make', 'value': [mo, da, 12, 0]}
+            yield 'reject', {'leap': leap, 'what': 'date', 'value': [mo, da]}
         bm = [m for m in _boundary_moys(leap) if 0 <= m < n]
         for _ in range(3000 if not big else 30000):
             a = rng.choice(bm) if rng.random() < 0.5 else rng.randrange(n)
             b = rng.choice(bm) if rng.random() < 0.5 else rng.randrange(n)
+            if rng.random() < 0.1:
+                b = a
             yield 'order', {'leap': leap, 'a': a, 'b': b}
         for _ in range(3000 if not big else 30000):
             m = rng.choice(bm) if rng.random() < 0.4 else rng.randrange(n)
-            k = rng.randrange(-m, n - m)
+            r = rng.random()
+            if r < 0.08:
+                k = 0
+                ctx.count('add_sub:zero-offset')
+            elif r < 0.16:
+                k = rng.choice([-m, n - 1 - m])            # lands exactly on the first / last minute
+                ctx.count('add_sub:to-year-edge')
+            elif leap and r < 0.30:                        # the part of the leap year a normal year lacks
+                if rng.random() < 0.5:
+                    m = rng.randrange(525600, n)
+                    k = rng.randrange(-m, n - m)
+                else:
+                    k = rng.randrange(525600, n) - m
+                ctx.count('add_sub:leap-31dec')
+            else:
+                k = rng.randrange(-m, n - m)
             yield 'add_sub', {'leap': leap, 'moy': m, 'k': k}
             kh = rng.randrange(-(m // 60), (n - m - 1) // 60 + 1)
+            if rng.random() < 0.3:                         # float hours on the quarter grid (exact in binary)
+                kq = rng.randrange(-(m // 15), (n - m - 1) // 15 + 1)
+                kh = kq / 4.0
+                ctx.count('add_sub:quarter-hours')
             yield 'add_sub', {'leap': leap, 'moy': m, 'k': kh, 'unit': 'hour'}
         sm = bm + [rng.randrange(n) for _ in range(600 if not big else 20000)]
         if leap:
@@ -423,15 +1178,154 @@ def _oracle_cases(ctx):
             yield 'serial', {'leap': leap, 'moy': m}
 
 
-def oracle(ctx):
-    run_oracle_cases(ctx, _oracle_cases(ctx), check_case)
+def _oracle_histories(ctx, count):
+    """Histories on new module instances: a stale memo / slot shows as a wrong later observation."""
+    rng = ctx.rng
+    for _ in range(count):
+        if len(ctx.failures) >= 200:
+            break
+        ops = _gen_history(rng, rng.randrange(4, 36), wild=False, count=ctx.count)
+        res = _history_result(ops)
+        ctx.count('oracle:history')
+        ctx.count('oracle:history-steps', len(ops))
+        ctx.case(('history', json.dumps(ops)))
+        if res:
+            sig = res['sig']
 
-LEVEL_TEXT = ('Machine-checked Lean 4 theorems (23) over an executable model of dt.py: from_moy/moy and '
+            def fails(t):
+                r = _history_result(t)
+                return r is not None and r['sig'] == sig
+
+            small = _shrink_history(ops[:res['at'] + 1], fails)
+            res2 = _history_result(small) or res
+            ctx.fail('history', {'ops': small}, res2['required'],
+                     'step %d %r: %s' % (res2.get('at', -1), small[res2.get('at', -1)], res2['observed']),
+                     res2['sig'])
+
+
+def _order_pool(ctx):
+    """The slice of the oracle stream that is re-run in fresh interpreters."""
+    rng = ctx.rng
+    k = 1 if ctx.quick and not ctx.searching else 4
+    pool = []
+    for leap in (False, True):
+        n = _year_minutes(leap)
+        days = 366 if leap else 365
+        bm = [m for m in _boundary_moys(leap) if 0 <= m < n]
+        pool += [('doy_roundtrip', {'leap': leap, 'doy': d}) for d in range(1, days + 1)]
+        pool += [('reject', {'leap': leap, 'what': 'doy', 'value': v}) for v in (0, days + 1)]
+        pool += [('reject', {'leap': leap, 'what': 'moy', 'value': v}) for v in (n, n + 1440)]
+        pool += [('reject', {'leap': leap, 'what': 'make', 'value': [2, 30, 0, 0]})]
+        # refused calls spread through the order (a slot left half-written by a refused call shows in
+        # the next ordinary case)
+        pool += [('reject', {'leap': leap, 'what': 'moy', 'value': rng.choice([n, n + 1, n + 59, n + 1440, 2 * n])})
+                 for _ in range(60 * k)]
+        pool += [('reject', {'leap': leap, 'what': 'doy', 'value': rng.choice([0, -1, days + 1, 400])})
+                 for _ in range(20 * k)]
+        pool += [('moy_roundtrip', {'leap': leap, 'moy': m}) for m in bm]
+        pool += [('moy_roundtrip', {'leap': leap, 'moy': rng.randrange(n)}) for _ in range(150 * k)]
+        pool += [('hoy_roundtrip', {'leap': leap, 'moy': rng.choice(bm)}) for _ in range(80 * k)]
+        pool += list(_hoy_float_cases(ctx, leap, 120 * k))
+        for _ in range(120 * k):
+            m = rng.choice(bm) if rng.random() < 0.5 else rng.randrange(n)
+            pool.append(('add_sub', {'leap': leap, 'moy': m, 'k': rng.randrange(-m, n - m)}))
+            pool.append(('order', {'leap': leap, 'a': m, 'b': rng.choice(bm)}))
+        pool += [('serial', {'leap': leap, 'moy': rng.choice(bm)}) for _ in range(25 * k)]
+    for _ in range(300 * k):
+        pool.append(('history', {'ops': _gen_history(rng, rng.randrange(3, 20))}))
+    return pool
+
+
+def _twin_cases(op, inp):
+    """Cases about the same calendar date / the same index in the other kind of year (what a memo
+    keyed without the leap flag confuses), from the stdlib calendar."""
+    out = []
+    leap = bool(inp.get('leap', False))
+    for key in ('moy', 'a', 'b'):
+        if isinstance(inp.get(key), int) and 0 <= inp[key] < _year_minutes(leap):
+            r = _ref(leap, inp[key])
+            alts = [inp[key]]
+            if r.day <= _month_len(not leap, r.month):
+                alts.append(_moy_of(not leap, r.month, r.day, r.hour, r.minute))
+            for m in alts:
+                if 0 <= m < _year_minutes(not leap):
+                    out.append(('moy_roundtrip', {'leap': not leap, 'moy': m}))
+                    out.append(('serial', {'leap': not leap, 'moy': m}))
+    if isinstance(inp.get('doy'), int):
+        for k in (inp['doy'] - 1, inp['doy'], inp['doy'] + 1):
+            if 1 <= k <= 365:
+                out.append(('doy_roundtrip', {'leap': not leap, 'doy': k}))
+    twin = dict(inp)
+    twin['leap'] = not leap
+    out.append((op, twin))
+    return out
+
+
+def _confirm_in_fresh_process(ctx, recent, rng):
+    """A failure seen in this (long-lived) process must be replayable: if the single case does not
+    fail in a fresh interpreter the failure depends on what ran before it -> find and report an
+    order that fails; failures for which none is found are moved behind the replayable ones."""
+    for idx, f in enumerate(ctx.failures[:1]):
+        if f['op'] in ('history', 'process_order') or idx not in recent:
+            continue
+        case = (f['op'], f['input'])
+        if _run_order([case]):
+            continue                                    # fails on its own: the replay is the case
+        before = recent[idx]
+        twins = _twin_cases(*case)
+        found = False
+        for pre in (twins, [case], before[-60:], before):
+            fs = _run_order(list(pre) + [case])
+            if fs:
+                order = list(pre) + [case]
+                small = _shrink_order(order[:fs[0]['index'] + 1], fs[0], budget=24)
+                g = fs[0]
+                sig = dict(g.get('sig') or {})
+                sig.update({'kind': 'process_order', 'at': g['op'], 'order_dependent': True})
+                ctx.failures[idx] = {'op': 'process_order',
+                                     'input': {'order': small, 'failing_case': [g['op'], g['input']]},
+                                     'required': g['required'], 'observed': g['observed'],
+                                     'sig': dict(sig, op='process_order')}
+                found = True
+                break
+        if not found:
+            # depends on an earlier part of this run that was not identified: keep a few as
+            # unconfirmed and leave room for the history / process-order stages (replayable by construction)
+            for g in ctx.failures:
+                g['unconfirmed'] = True
+            del ctx.failures[10:]
+
+
+def oracle(ctx):
+    import collections
+    window = collections.deque(maxlen=1500)
+    recent = {}
+    base = len(ctx.failures)
+
+    def checked(op, inp):
+        res = check_case(op, inp)
+        if res and len(ctx.failures) - base < 2:
+            recent[len(ctx.failures)] = list(window)
+        window.append((op, inp))
+        return res
+
+    run_oracle_cases(ctx, _oracle_cases(ctx), checked)
+    if ctx.failures:
+        _confirm_in_fresh_process(ctx, recent, ctx.rng)
+    _oracle_histories(ctx, 1500 if (ctx.quick and not ctx.searching) else 12000)
+    _process_orders(ctx, _order_pool(ctx))
+    ctx.failures.sort(key=lambda f: bool(f.get('unconfirmed')))      # replayable failures first
+
+LEVEL_TEXT = ('Machine-checked Lean 4 theorems (32) over an executable model of dt.py: from_moy/moy and '
               'from_doy/doy are mutually inverse bijections for every minute/day of normal and leap years, '
               'out-of-year inputs are rejected, ordering equals ordering of moy, add/sub offsets invert, '
               'array/dict/pickle/text forms round-trip incl. 29 Feb. The month tables used by the model are '
               'regenerated from dt.py on every run (a changed table breaks theorem C08_tables_*), and the '
-              'model is compared with the real classes on boundary-biased and (thorough) exhaustive inputs.')
+              'model is compared with the real classes on boundary-biased and (thorough) exhaustive inputs. '
+              'Histories: for every op list on one date-time variable the state is the fresh object of its '
+              'public state, refused calls change nothing, reads are pure, index ops follow integer arithmetic '
+              '(C08_history_*); the real classes are compared with that state machine step by step, in new '
+              'module instances and in fresh interpreters with different case orders.')
 LEVEL_NOTE = ('Trusted: Lean kernel; axioms propext/Classical.choice/Quot.sound only; the table extractor; '
               'the correspondence run (agreement on generated inputs only); CPython datetime as the calendar '
               'reference; float hour normalisation modelled as exact carry (compared exhaustively); '
